@@ -14,7 +14,7 @@ use serde_json::Value as J;
 pub fn minimise(case: &Case, class: &str, check: &dyn Fn(&Case) -> Option<String>) -> (Case, u64) {
     let mut best = case.clone();
     let mut steps = 0u64;
-    let mut budget = 3000u32;
+    let mut budget = 6000u32;
     let same = |c: &Case, steps: &mut u64, budget: &mut u32| -> bool {
         if *budget == 0 {
             return false;
@@ -120,6 +120,16 @@ pub fn minimise(case: &Case, class: &str, check: &dyn Fn(&Case) -> Option<String
         for cand in document_candidates(&best.document) {
             let mut c = best.clone();
             c.document = cand;
+            if same(&c, &mut steps, &mut budget) {
+                best = c;
+                progress = true;
+                break;
+            }
+        }
+        // 5. schema: drop definitions, then fields, that the failing request does not need
+        for cand in schema_candidates(&best.schema) {
+            let mut c = best.clone();
+            c.schema = cand;
             if same(&c, &mut steps, &mut budget) {
                 best = c;
                 progress = true;
@@ -295,4 +305,41 @@ fn prune(doc: &mut ast::Document) {
             });
         }
     }
+}
+
+/// Candidate schemas with one definition, or one field of an object / interface type, removed.
+fn schema_candidates(text: &str) -> Vec<String> {
+    let Ok(doc) = ast::Document::parse(text, "schema.graphql") else {
+        return vec![];
+    };
+    let mut out = vec![];
+    for d in 0..doc.definitions.len() {
+        let mut cand = doc.clone();
+        cand.definitions.remove(d);
+        out.push(cand.to_string());
+    }
+    for d in 0..doc.definitions.len() {
+        let n_fields = match &doc.definitions[d] {
+            ast::Definition::ObjectTypeDefinition(t) => t.fields.len(),
+            ast::Definition::InterfaceTypeDefinition(t) => t.fields.len(),
+            _ => 0,
+        };
+        if n_fields < 2 {
+            continue;
+        }
+        for f in 0..n_fields {
+            let mut cand = doc.clone();
+            match &mut cand.definitions[d] {
+                ast::Definition::ObjectTypeDefinition(t) => {
+                    t.make_mut().fields.remove(f);
+                }
+                ast::Definition::InterfaceTypeDefinition(t) => {
+                    t.make_mut().fields.remove(f);
+                }
+                _ => {}
+            }
+            out.push(cand.to_string());
+        }
+    }
+    out
 }
